@@ -162,6 +162,24 @@ def bfLine (toks : List String) : String :=
       let big := nm.order == 'b'
       s!"untranslated ## ret={nm.bits / 8} out={hexOf (store big (nm.bits / 8) v)} pre=ok"
     | _, _, _ => "bad-op"
+  | ["bf.rsr", name, hex1, hex2, _align] =>
+    -- store v1, load, store v2, load, store v1, load - through the same pair of functions
+    match parseHexNat hex1, parseHexNat hex2, parseBfName name with
+    | some v1, some v2, some nm =>
+      let big := nm.order == 'b'
+      let rw := retWidth nm.bits
+      let n := nm.bits / 8
+      let spec1 (v : Nat) : Nat :=
+        let octs := store big n v
+        if nm.kind == 's' then patternOfInt rw (loadS big octs) else loadU big octs
+      let sp := s!"{hexNat (spec1 v1) (rw / 4)} {hexNat (spec1 v2) (rw / 4)} {hexNat (spec1 v1) (rw / 4)}"
+      let setName := "bf_set_" ++ (name.drop 7).toString
+      match refTable.find? (·.1 == name), setTable.find? (·.1 == setName) with
+      | some (_, _, _, rf), some (_, _, _, sf) =>
+        let m1 (v : Nat) : Nat := rf (sf v)
+        s!"{hexNat (m1 v1) (rw / 4)} {hexNat (m1 v2) (rw / 4)} {hexNat (m1 v1) (rw / 4)} ## {sp}"
+      | _, _ => s!"untranslated ## {sp}"
+    | _, _, _ => "bad-op"
   | ["bf.swap", name, hex] =>
     match parseHexNat hex, valTable.find? (·.1 == name) with
     | some v, some (_, pw, f) =>
@@ -261,6 +279,13 @@ def stepLine (_ : Unit) (toks : List String) : Unit × String :=
       if e ≠ .eagain ∧ e ≠ .eintr ∧ e ≠ .eio then "bad-op" else
       decStr t (varint_from_source (if k < inp.length then e else .enodata) (inp.take k) t.max) (fun c => s!" taken={c}") "" ++ " ## sound"
     | _, _, _, _ => "bad-op"
+  | ["vi.decchunks", ty, hex, _cuts] =>
+    -- how the octets are scattered over chunks is invisible: the decoder sees the octet string
+    match Ty.ofString ty, parseHex hex with
+    | some t, some inp =>
+      decStr t (varint_from_source .enodata inp t.max)
+        (fun c => s!" taken={c} next=" ++ (match inp[c]? with | some o => hexOf [o] | none => "none")) ""
+    | _, _ => "bad-op"
   | ["vi.tosink", ty, v] =>
     match Ty.ofString ty, v.toInt? with
     | some t, some x => let e := encode (t.pattern x); s!"ok:{e.length} out={hexOf e}"
